@@ -885,7 +885,8 @@ func parseJSONSchemaTags(tag reflect.StructTag, schema *openapi3.Schema) error {
 					schema.Enum = make([]any, 0)
 				}
 				// Add single enum value (standard format: enum=val1,enum=val2,enum=val3)
-				schema.Enum = append(schema.Enum, value)
+				// in the JSON type of the schema: an integer field accepts 1, not "1"
+				schema.Enum = append(schema.Enum, typedTagValue(schema, value))
 			case "default":
 				// Convert default value based on schema type
 				if schema.Type != nil && len(*schema.Type) > 0 {
@@ -915,7 +916,7 @@ func parseJSONSchemaTags(tag reflect.StructTag, schema *openapi3.Schema) error {
 					schema.Default = value // fallback to string
 				}
 			case "example":
-				schema.Example = value
+				schema.Example = typedTagValue(schema, value)
 			}
 		} else if directive == "uniqueItems" {
 			// Handle standalone uniqueItems directive (no value)
@@ -924,6 +925,30 @@ func parseJSONSchemaTags(tag reflect.StructTag, schema *openapi3.Schema) error {
 	}
 
 	return nil
+}
+
+// typedTagValue converts the text of a jsonschema tag value to the JSON type of the schema it is
+// attached to (integer, number or boolean); it stays a string for every other type and when it
+// cannot be parsed.
+func typedTagValue(schema *openapi3.Schema, value string) interface{} {
+	if schema.Type == nil || len(*schema.Type) == 0 {
+		return value
+	}
+	switch (*schema.Type)[0] {
+	case "integer":
+		if intVal, err := strconv.ParseInt(value, 10, 64); err == nil {
+			return intVal
+		}
+	case "number":
+		if floatVal, err := strconv.ParseFloat(value, 64); err == nil {
+			return floatVal
+		}
+	case "boolean":
+		if boolVal, err := strconv.ParseBool(value); err == nil {
+			return boolVal
+		}
+	}
+	return value
 }
 
 // NestedRefGenerator manages nested inline $ref generation.
